@@ -364,6 +364,13 @@ func restartFailed(rec *mon.Recorder, desc string, node uint64, err error, repla
 func scenario(rec *mon.Recorder, c int) {
 	rng := rec.Rand("c14", c)
 	nodes := 1 + rng.Intn(3)
+	// every fourth case is sure to have a member that is down while the
+	// catalogue changes and is caught up by snapshot afterwards - in every
+	// second of those the catalogue it must restore is empty
+	forceLag := c%4 == 2
+	if forceLag {
+		nodes = 3
+	}
 	desc := fmt.Sprintf("case=%d nodes=%d", c, nodes)
 	rec.Current(desc)
 	cl := sim.New(sim.Options{Nodes: nodes, Dir: os.Getenv("VERIF_SCRATCH") + fmt.Sprintf("/c14-%d", c), TickEvery: 5 * time.Millisecond, Seed: rec.Seed() + int64(c)})
@@ -511,7 +518,11 @@ func scenario(rec *mon.Recorder, c int) {
 	for s := 0; s < nSteps && !violated; s++ {
 		live := liveNodes()
 		via := live[rng.Intn(len(live))]
-		switch r := rng.Intn(10); {
+		r := rng.Intn(10)
+		if forceLag && s == nSteps/2 && down < 0 {
+			r = 9
+		}
+		switch {
 		case r < 4: // create
 			e, ok := create(via, uint32(1+rng.Intn(3)), uint32(1+rng.Intn(2)))
 			if !ok {
@@ -572,6 +583,9 @@ func scenario(rec *mon.Recorder, c int) {
 			steps = append(steps, fmt.Sprintf("node %d down", down+1))
 			live = liveNodes()
 			emptyIt := rng.Intn(2) == 0 // the catalogue the returning node must restore may be empty
+			if forceLag {
+				emptyIt = c%8 == 2
+			}
 			var e entry
 			if !emptyIt {
 				var ok bool
